@@ -125,6 +125,12 @@ impl SessionEngine {
 
     pub fn create_session(&self) -> SessionHandle {
         let session_id = Uuid::new_v4().to_string();
+        #[cfg(feature = "verif")]
+        let (sender, _receiver) = broadcast::channel(rip_kernel::verif::knob(
+            "event_channel_capacity",
+            EVENT_CHANNEL_CAPACITY,
+        ));
+        #[cfg(not(feature = "verif"))]
         let (sender, _receiver) = broadcast::channel(EVENT_CHANNEL_CAPACITY);
         SessionHandle {
             session_id,
